@@ -33,9 +33,12 @@ def gen_spec(rnd):
     nw = rnd.randint(2, 5)
     ws = []
     for i in range(nw):
-        ws.append({'name': 'w%d' % i, 'numprocesses': rnd.choice([0, 1, 1, 2, 3]), 'priority': rnd.choice([0, 1, 2, 2, 5]),
+        ws.append({'name': 'w%d' % i, 'numprocesses': rnd.choice([0, 1, 1, 2, 3, 4]), 'priority': rnd.choice([0, 1, 2, 2, 5]),
                    'warmup_delay': rnd.choice([0, 0, .2, 1]), 'autostart': rnd.random() < .8,
                    'graceful_timeout': rnd.choice([0, .2])})
+        if rnd.random() < .3:
+            # a spawn that has a real cost (a hook probing the new worker takes virtual time)
+            ws[-1]['hooks'] = {'after_spawn': ['true+%s' % rnd.choice([0.05, 0.1]), False]}
     trig = rnd.choice(['boot', 'boot', 'start-all', 'restart-glob', 'start-glob', 'start-regex', 'restart-regex',
                        'restart-all-names'])
     return {'watchers': ws, 'arb': {'warmup_delay': rnd.choice([0, 0, 1, 2])}, 'trigger': trig,
